@@ -191,12 +191,17 @@ func capPreCount(swampObj swamp.Swamp, predicate func(treasureForCount) bool) (i
 	adapted := func(t treasure.Treasure) bool {
 		return predicate(t)
 	}
-	count := swampObj.CountMatchingTreasures(adapted)
 	// Cap-bearing patch flows serialise on swamp.capMu — but the swamp
 	// interface does not expose it directly. Acquire it via the
 	// public LockCapMu / UnlockCapMu accessors added on the swamp
 	// interface so the gateway can hold it for the whole batch.
+	//
+	// The mutex must be taken BEFORE counting: a count taken outside it can
+	// be stale by the time the batch runs (another cap-bearing flow moved
+	// records into the filter in between) and both batches would spend the
+	// same budget, pushing the matching count above Cap.MaxMatching.
 	swampObj.LockCapMu()
+	count := swampObj.CountMatchingTreasures(adapted)
 	return count, swampObj.UnlockCapMu
 }
 
